@@ -122,6 +122,11 @@ def run(ctx, rep):
         directed += [[('register',)], [('load',), ('register',)], [('load',), ('register',), ('load',)],
                      [('write', (None, None), 0), ('load',), ('register',), ('touch', (None, None))],
                      [('write', (0, 'a.yaml'), 2), ('load',), ('register',), ('delete', (0, 'a.yaml')), ('load',)]]
+        # the VALUE of an override changes between loads (same names before and after), incl. under a deprecated name
+        for f in ((None, None), (0, 'a.yaml'), (1, 'b.yaml')):
+            for c1, c2 in ((1, 6), (6, 1), (0, 7), (7, 0), (2, 4)):
+                directed.append([('write', f, c1), ('load',), ('write', f, c2)])
+                directed.append([('write', f, c1), ('load',), ('write', f, c2), ('load',), ('write', f, c1)])
         hists = directed + hists
         rnd = []
         big = ops_alphabet(4, len(CONTENTS)) + [('force',), ('register',)]
